@@ -49,10 +49,15 @@ theorem listMax_le : ∀ (l : List Nat) (n : Nat), (∀ x ∈ l, x ≤ n) → li
 end Harper.PatternRules
 namespace Harper.Leaves
 open Harper.PatternRules (listMin listMax)
+/-- a lower bound on every NON-ZERO answer of a leaf: `SplitCompoundWord` answers 0 or 3 -/
+def Leaf.minLen : Leaf → Nat
+  | .splitCompound _ => 3
+  | _ => 1
+
 mutual
 /-- a lower bound on every NON-ZERO answer of the tree -/
 def RPat.minLen : RPat → Nat
-  | .leaf _ => 1
+  | .leaf l => l.minLen
   | .seq ps => (RPats.minLens ps).sum
   | .rep p _ => RPat.minLen p
   | .either ps => listMin (RPats.minLens ps)
@@ -219,10 +224,21 @@ theorem lb_of_mem {ms : List Matcher} {ks : List Nat} (h : Pairs LB ms ks) (m : 
   obtain ⟨k, hk, hlb⟩ := forall₂_mem h m hm
   exact Nat.le_trans (listMin_le ks k hk) (hlb src ts n e hn)
 
+theorem splitCompound_lb (env : Env) (bit : Nat) : LB (splitCompoundAtom env bit) 3 := by
+  intro src ts n h hn
+  simp only [splitCompoundAtom] at h
+  repeat' split at h
+  all_goals first | (simp only [Except.ok.injEq] at h; omega) | cases h
+
+theorem leaf_lb (env : Env) (l : Leaf) : LB (l.matcher env) l.minLen := by
+  cases l with
+  | splitCompound bit => exact splitCompound_lb env bit
+  | _ => exact lb_one _
+
 mutual
 /-- **a non-zero answer of a tree is at least its `minLen`** (on any tokens: no hypothesis) -/
 theorem matcher_lb (env : Env) : (p : RPat) → LB (p.matcher env) p.minLen
-  | .leaf l => by rw [RPat.minLen]; exact lb_one _
+  | .leaf l => by rw [RPat.minLen, RPat.matcher]; exact leaf_lb env l
   | .seq ps => by
     rw [RPat.matcher, RPat.minLen]
     intro src ts n h hn
@@ -528,6 +544,11 @@ theorem Sel.eval_shift (s : Sel) (k j : Nat) (l : List Tok) :
     split
     · rfl
     · cases l[l.length - n]? <;> rfl
+  | drop a =>
+    simp only [Sel.eval, List.length_map, sliceE_map]
+    cases sliceE l a l.length with
+    | error e => rfl
+    | ok sub => simp only [Except.map, spanOf_shTok]
 
 theorem Txt.eval_shift (P D : List Char) (l : List Tok) (j : Nat) (vars : List (List Char)) : ∀ t : Txt,
     t.eval (P ++ D) (l.map (shTok P.length j)) vars = t.eval D l vars
@@ -709,6 +730,19 @@ theorem Sel.eval_in (s : Sel) (n : Nat) (l : List Tok) (h : InP n l) (sp : Span)
         simp only [Except.ok.injEq, Option.some.injEq] at e
         subst e
         exact h t (List.mem_of_getElem? hi)
+  | drop a =>
+    simp only [Sel.eval] at e
+    cases hs : sliceE l a l.length with
+    | error e' => rw [hs] at e; cases e
+    | ok sub =>
+      rw [hs] at e
+      simp only [Except.ok.injEq] at e
+      have hsub : ∀ t ∈ sub, t ∈ l := by
+        simp only [sliceE] at hs
+        split at hs
+        · cases hs
+        · cases hs; exact fun t ht => List.mem_of_mem_drop (List.mem_of_mem_take ht)
+      exact spanOf_ok n sub sp e (hin sub hsub)
 
 theorem Txt.eval_left (P D : List Char) (l : List Tok) (h : InP P.length l) (vars : List (List Char)) : ∀ t : Txt,
     t.eval (P ++ D) l vars = t.eval P l vars
@@ -778,6 +812,7 @@ def Sel.Fits (n : Nat) : Sel → Prop
   | .tok i => i < n
   | .slice a b => a ≤ b ∧ b ≤ n
   | .fromEnd k => 1 ≤ k ∧ k ≤ n
+  | .drop a => a ≤ n
   | _ => True
 
 def Txt.Fits (n : Nat) : Txt → Prop
@@ -827,6 +862,11 @@ theorem Sel.eval_ok (s : Sel) (l : List Tok) (hf : s.Fits l.length) : ∃ o, s.e
     simp only [Sel.Fits] at hf
     simp only [Sel.eval]
     rw [if_neg (by omega), List.getElem?_eq_getElem (by omega)]
+    exact ⟨_, rfl⟩
+  | drop a =>
+    simp only [Sel.Fits] at hf
+    simp only [Sel.eval, sliceE]
+    rw [if_neg (by omega)]
     exact ⟨_, rfl⟩
 
 theorem Txt.eval_ok (src : List Char) (l : List Tok) (h : InText src l) (vars : List (List Char)) : ∀ t : Txt, t.Fits l.length →
@@ -1090,6 +1130,19 @@ theorem Sel.eval_within (s : Sel) (l : List Tok) (sp sp' : Span) (h : spanOf l =
         subst e
         have := hc t (List.mem_of_getElem? hi)
         omega
+  | drop a =>
+    simp only [Sel.eval] at e
+    cases hs : sliceE l a l.length with
+    | error e' => rw [hs] at e; cases e
+    | ok sub =>
+      rw [hs] at e
+      simp only [Except.ok.injEq] at e
+      have hsub : ∀ t ∈ sub, t ∈ l := by
+        simp only [sliceE] at hs
+        split at hs
+        · cases hs
+        · cases hs; exact fun t ht => List.mem_of_mem_drop (List.mem_of_mem_take ht)
+      exact spanOf_sub l sub hsub sp sp' h e
 
 /-- every lint a spec produces has the span its `Sel` names (whatever the tokens are) -/
 theorem Spec.run_span (env : Env) (s : Spec) (src : List Char) (l : List Tok) (ls : List RuleLint) (h : s.run env src l = .ok ls) :
